@@ -221,8 +221,169 @@ func body(fine bool) func() {
 		vrt.Observe("%s accepted=%v events=%v", variant, accepted, events)
 	}
 }
+// histories: sequential subscribe / write / cancel histories on the level
+// property. Every accepted write (by a client, by name or by numeric id, or
+// by the service) reaches each subscriber of the moment exactly once, in
+// order; refused writes reach nobody; reads return the latest accepted value.
+func histories(sameClient bool) func() {
+	return func() {
+		w := fx.Start(bus.Yes{})
+		c1 := w.MustConnect()
+		c2 := c1
+		if !sameClient {
+			c2 = w.MustConnect()
+		}
+		cw := w.MustConnect() // the writer's own connection
+		pA, pB, pW := c1.Probe(1), c2.Probe(1), cw.Probe(1)
+		order := vrt.ChooseFree(2, "who-leaves-first")
+		third := vrt.ChooseFree(2, "third-subscriber-connection")
+		mode := vrt.ChooseFree(3, "object-mode")
+		switch mode {
+		case 1:
+			if err := pW.EnableStats(true); err != nil {
+				vrt.Failf("harness/enable-stats", "%v", err)
+			}
+		case 2:
+			if err := pW.EnableTrace(true); err != nil {
+				vrt.Failf("harness/enable-trace", "%v", err)
+			}
+		}
+		vrt.Explore()
+		type window struct {
+			name   string
+			got    []int32
+			closed bool
+			cancel func()
+			err    error
+		}
+		subscribe := func(name string, p probe.ProbeProxy) *window {
+			x := &window{name: name}
+			cancel, ch, err := p.SubscribeLevel()
+			if err != nil {
+				x.err = err
+				vrt.Failf("history-subscribe-failed/"+name, "subscribing to the level property failed: %v", err)
+				return x
+			}
+			x.cancel = cancel
+			vrt.GoNamed("drain-"+name, func() {
+				for v := range ch {
+					x.got = append(x.got, v)
+				}
+				x.closed = true
+			})
+			return x
+		}
+		expect := map[string][]int32{}
+		open := map[string]bool{}
+		current := int32(probe.InitialLevel)
+		n := int32(10)
+		ctx := func() string {
+			return fmt.Sprintf("first leaver %d, third subscriber on connection %d, object mode %d [0 plain, 1 statistics, 2 tracing]", order, third+1, mode)
+		}
+		accepted := func(v int32) {
+			current = v
+			for name, o := range open {
+				if o {
+					expect[name] = append(expect[name], v)
+				}
+			}
+		}
+		// one round of writes: client by name, refused, service, client by id
+		step := func() {
+			n++
+			if err := pW.SetLevel(n); err != nil {
+				vrt.Failf("history-write-refused", "SetLevel(%d) failed (%s): %v", n, ctx(), err)
+			} else {
+				accepted(n)
+			}
+			if err := pW.SetLevel(-n); err == nil {
+				vrt.Failf("history-invalid-write-accepted", "SetLevel(%d) succeeded although the validator refuses negative levels (%s)", -n, ctx())
+			}
+			if err := pW.SetProperty(value.String("level"), value.String("x")); err == nil {
+				vrt.Failf("history-wrongly-typed-write-accepted", "setProperty(level, \"x\") succeeded (%s)", ctx())
+			}
+			n++
+			if err := w.Root.Helper.UpdateLevel(n); err != nil {
+				vrt.Failf("history-write-refused", "service-side UpdateLevel(%d) failed (%s): %v", n, ctx(), err)
+			} else {
+				accepted(n)
+			}
+			if err := w.Root.Helper.UpdateLevel(-n); err == nil {
+				vrt.Failf("history-invalid-write-accepted", "service-side UpdateLevel(%d) succeeded (%s)", -n, ctx())
+			}
+			n++
+			if err := pW.SetProperty(value.Uint(107), value.Opaque("i", rawInt(n))); err != nil {
+				vrt.Failf("history-write-refused", "setProperty(107, %d) failed (%s): %v", n, ctx(), err)
+			} else {
+				accepted(n)
+			}
+			vrt.Quiesce()
+			if v, err := pA.GetLevel(); err != nil || v != current {
+				vrt.Failf("history-read-differs", "GetLevel returned %d, %v; the latest accepted write is %d (%s)", v, err, current, ctx())
+			}
+		}
+		a := subscribe("A", pA)
+		vrt.Quiesce()
+		open["A"] = true
+		step()
+		b := subscribe("B", pB)
+		vrt.Quiesce()
+		open["B"] = true
+		step()
+		first, second, fn, sn := a, b, "A", "B"
+		if order == 1 {
+			first, second, fn, sn = b, a, "B", "A"
+		}
+		stop := func(x *window) {
+			if x.cancel != nil {
+				x.cancel()
+			}
+			vrt.Quiesce()
+		}
+		stop(first)
+		open[fn] = false
+		step()
+		stop(second)
+		open[sn] = false
+		step()
+		pC := pA
+		if third == 1 {
+			pC = pB
+		}
+		c := subscribe("C", pC)
+		vrt.Quiesce()
+		open["C"] = true
+		step()
+		stop(c)
+		open["C"] = false
+		step()
+		for _, win := range []*window{a, b, c} {
+			if win.err != nil {
+				continue
+			}
+			if fmt.Sprint(win.got) != fmt.Sprint(expect[win.name]) {
+				clause := "history-events-differ/"
+				for i, v := range win.got {
+					if i > 0 && win.got[i-1] == v {
+						clause = "history-event-duplicated/"
+					}
+				}
+				vrt.Failf(clause+win.name, "sequential history (%s): subscriber %s received %v, the writes accepted while it was subscribed are %v", ctx(), win.name, win.got, expect[win.name])
+			}
+			if !win.closed {
+				vrt.Failf("history-channel-not-closed/"+win.name, "the channel of subscriber %s is still open after its cancellation (%s)", win.name, ctx())
+			}
+		}
+		fx.Settle()
+		vrt.Observe("order=%d third=%d mode=%d", order, third, mode)
+	}
+}
 
 func init() {
+	reg.Register(&reg.Scenario{Property: "C14", Name: "histories-same-client", Body: histories(true), Quick: 0, Thorough: 1,
+		Doc: "sequential: A subscribes, B subscribes (same client), they leave in either order, C subscribes and leaves; after every step a client write by name, a refused one, a wrongly typed one, a service update, a refused service update, a write by numeric id and a read; object plain / with statistics / with tracing"})
+	reg.Register(&reg.Scenario{Property: "C14", Name: "histories-two-connections", Body: histories(false), Quick: 0, Thorough: 1,
+		Doc: "same sequential histories with A and B on different connections"})
 	reg.Register(&reg.Scenario{Property: "C14", Name: "three-writers", Body: body(false), Quick: 1, Thorough: 2,
 		Doc:      "client1: set 5, get || client2: one of {set 7, set -1, five wrongly-typed sets (by name and by numeric id), set by id}, get || service: update 9, update -3 || the middle one of three subscribers leaves; porcupine against a register",
 		MustFlag: []string{"validator-rejected", "writes-reordered"}})
